@@ -27,8 +27,9 @@ type mframe struct {
 	locals  []int // 0 = nil
 	argc    int
 	scratch []int
-	cap     *[]int        // model of the captured frame (shared, write-through)
-	rcap    *memory.Frame // what the implementation handed out
+	cap     *[]int          // model of the captured frame (shared, write-through)
+	rcap    *memory.Frame   // what the implementation handed out (first capture)
+	more    []*memory.Frame // what later captures of the same activation handed out
 	retmark int
 	closure *[]int // model of the closure frame pushed for this call
 }
@@ -233,6 +234,9 @@ func (mm *memMachine) apply(op memOp) (why string, ok bool) {
 			f.cap = &c
 			f.rcap = capture(cur.real)
 			mm.capts = append(mm.capts, f)
+		} else if len(f.more) < 3 {
+			// another closure created in the same activation: it shares the variables too
+			f.more = append(f.more, capture(cur.real))
 		}
 	case "global": // A = name, B: 0 set / 1 get
 		name := string(rune('a' + op.A%4))
@@ -334,6 +338,11 @@ func (mm *memMachine) invariant(op memOp) string {
 			i := (op.B + k) % len(*c.cap)
 			if got := iv((*c.rcap)[i]); got != (*c.cap)[i] {
 				return fmt.Sprintf("frame captured by a closure: variable %d reads %d, last written %d", i, got, (*c.cap)[i])
+			}
+			for n, extra := range c.more {
+				if got := iv((*extra)[i]); got != (*c.cap)[i] {
+					return fmt.Sprintf("frame captured by closure number %d of one activation: variable %d reads %d, last written %d", n+2, i, got, (*c.cap)[i])
+				}
 			}
 		}
 	}
